@@ -505,17 +505,16 @@ fn make_jobs(seed: u64, n: usize, reals: &[(String, String)]) -> Vec<Job> {
                 }
                 3 => {
                     let a = print(&gen_set(&s[s.len() / 2..], &gcfg));
-                    let b = exotic_module_x(&mut src, 12);
+                    let b = exotic_module_x(&mut src, 120);
                     Job { class: "mutated-generated", text: mutate(&mut src, &a, &b) }
                 }
                 4 => Job { class: "exotic", text: exotic_module(&mut src) },
                 7 => Job { class: "type-value-mismatch", text: mismatch_module(&mut src) },
                 8 => Job { class: "import-web", text: import_web(&mut src) },
                 5 => {
-                    // (malformed input nested deeper than ~25 levels takes exponential time: finding
-                    // F-exp-backtrack, confirmed from its repro; mutants stay shallow so that the
-                    // budget is not spent on re-discovering it)
-                    let a = exotic_module_x(&mut src, 12);
+                    // (malformed input nested deeper than ~25 levels took exponential time: finding
+                    // F-exp-backtrack, repaired; the mutants nest up to 120 levels)
+                    let a = exotic_module_x(&mut src, 120);
                     let b = real(&mut src).to_string();
                     Job { class: "mutated-exotic", text: mutate(&mut src, &a, &b) }
                 }
